@@ -45,9 +45,37 @@ def gen_op_many(rng):
     return f"pm {variant} {cmp} {split} {threads} {osf} {algo} par 2 1000 {size} " + " ".join(csv(r) for r in runs)
 
 
+def gen_op_default_cmp(rng):
+    """every front end called WITHOUT a comparator, input value type != output value type, negative keys:
+    the default order must be operator< of the INPUT value type"""
+    front = rng.choice(["pm", "spm", "pms", "spms", "pm", "spm", "mm", "smm", "mms", "smms"])
+    types = rng.choice(["iu", "iu", "il", "st", "st"])
+    k = rng.choice([1, 2, 2, 3, 4, 5, 8, 17])
+    nv = rng.choice([2, 3, 4, 8, 1000])
+    vals = [v - nv // 2 for v in range(nv)] if rng.random() < 0.85 else list(range(nv))
+    if rng.random() < 0.1:
+        vals = vals + [-1000000, 1000000]
+    runs = [make_run(rng, "lt", 0 if rng.random() < 0.1 else rng.randrange(1, 9), vals) for _ in range(k)]
+    total = sum(len(r) for r in runs)
+    size = total if rng.random() < 0.6 else rng.randrange(total + 1)
+    force = "seq" if rng.random() < 0.15 else "par"
+    return f"pmd {front} {types} {force} {size} " + " ".join(csv(r) for r in runs)
+
+
 def gen_op(rng, tier):
-    if rng.random() < 0.06:
+    r0 = rng.random()
+    if r0 < 0.06:
         return gen_op_many(rng)
+    if r0 < 0.14:
+        return gen_op_default_cmp(rng)
+    if r0 < 0.22:
+        # std::string keys: the same operation with an element type whose moved-from state is observable
+        for _ in range(20):
+            t = gen_op(rng, tier).split()
+            if t[0] == "pm" and t[2] in ("lt", "gt") and t[1] in ("u", "s"):
+                t[0] = "pmstr"
+                return " ".join(t)
+        return gen_op_default_cmp(rng)
     cmp = rng.choice(["lt", "lt", "lt", "gt", "half"])
     k = rng.choice([1, 2, 2, 3, 3, 4, 4, 5, 5, 6, 8])
     if rng.random() < 0.03:
@@ -140,11 +168,18 @@ class C07(flow.Spec):
         m = message.replace("#VIOL ", "")
         if m.startswith("crash"):
             return " ".join(m.split()[:8])
-        return " ".join(m.split(" in pm ")[0].split()[:6])
+        return " ".join(m.split(" in pm")[0].split()[:6])
 
     def compare(self, op, impl, model):
         if impl == model:
             return True
+        t = op.split()
+        if (t[0] == "pmd" and not t[1].startswith("s")) or (t[0] == "pmstr" and t[1] == "u" and t[7] != "par"):
+            # unstable front end, sequential fall-back or machine-dependent default thread count: which of several
+            # equivalent elements is taken from which sequence (`begins`) is not determined; keys and return value
+            # are (the harness oracle checks that `begins` sums up to `size` and stays inside the sequences)
+            a, b = impl.split(), model.split()
+            return len(a) == 6 and len(b) == 6 and a[:4] == b[:4]
         d = parse_pm(op) if op.startswith("pm ") else None
         if d is None or d["variant"] in ("s", "ss"):
             return False
@@ -178,7 +213,10 @@ class C07(flow.Spec):
         lines = []
         for i in range(400):
             t = gen_op(rng, "quick").split()
-            t[7] = "par"
+            if t[0] == "pmd":
+                t[3] = "par"
+            else:
+                t[7] = "par"
             lines.append(f"case t{i}")
             lines.append(" ".join(t))
         out, rc, err = core.run_lines([hb, "run"], lines, timeout=1500,
